@@ -22,7 +22,7 @@ def main():
             if failed or panicked:
                 run.violation('index bit lemma fails and the native run over depths 1..32 fails: %s' % (sorted(set(failed))[:3] or 'panic'),
                               {'harness': 'VerifHarness_C18_Deep', 'native_failed': sorted(set(failed)), 'native_output_tail': out[-1200:]}, key='C18:deep')
-        cfgs = [(1, 3), (2, 3), (3, 3), (4, 2)] if not run.thorough else [(1, 4), (2, 4), (3, 3), (3, 4), (4, 3), (5, 2), (6, 2)]
+        cfgs = [(1, 3), (2, 3), (3, 3), (4, 2)] if not run.thorough else [(1, 4), (2, 4), (3, 3), (3, 4), (4, 3), (5, 2)]
         for depth, ups in cfgs:
             stubs.PARAMS['depth'], stubs.PARAMS['updates'] = depth, ups
             label = '%s[depth=%d,updates=%d]' % (e, depth, ups)
